@@ -297,3 +297,33 @@ Theorem C02_generated_default_is_model :
   forall a m, gen_handler_from_default a m = from_default a m.
 Proof. exact gen_default_is_model. Qed.
 Print Assumptions C02_generated_default_is_model.
+
+(* ---- generated census of the request inputs the dispatch code consults
+   (translator harness/py2v_inputs.py -> gen/InputsGen.v, regenerated from
+   wsgi.py and request.py on every run).  The footprint is the code that
+   runs between the arrival of a request and the choice of its endpoint
+   (request-time methods of Application, the request constructors, and every
+   request property they use, transitively); every string-keyed lookup
+   inside it is one of the inputs of the model (model/Inputs.v): method,
+   path, the settings with their overrides, the body headers.  No other
+   request header or environment variable can influence which endpoint
+   runs. *)
+From Coq Require Import String.
+Local Open Scope string_scope.
+Local Open Scope list_scope.
+Require Import PW.model.Inputs PW.gen.InputsGen.
+
+Theorem C02_generated_dispatch_consults_only_modelled_inputs :
+  (forall r, In r keyed_reads ->
+             in_footprint dispatch_footprint r = true ->
+             In r allowed_dispatch_reads) /\
+  In "wsgi.Application.handler_from_table" dispatch_footprint /\
+  In "request.SimpleRequest.method_number" dispatch_footprint /\
+  In "request.SimpleRequest.path" dispatch_footprint /\
+  In ("request.SimpleRequest.method", "self.__environ", "get",
+      "REQUEST_METHOD") keyed_reads.
+Proof.
+  split; [apply reads_ok_spec; vm_compute; reflexivity|].
+  repeat split; vm_compute; tauto.
+Qed.
+Print Assumptions C02_generated_dispatch_consults_only_modelled_inputs.
